@@ -6,8 +6,10 @@ import (
 	"fmt"
 	"io"
 	"net/http"
+	"strings"
 	"sync"
 	"sync/atomic"
+	"unicode/utf8"
 
 	"github.com/lxzan/gws"
 	"github.com/renbou/grpcbridge/bridgelog"
@@ -172,7 +174,7 @@ func (b *TranscodedWebSocketBridge) ServeHTTP(unwrappedRW http.ResponseWriter, r
 
 	// Close the WebSocket and notify ReadLoop() to stop processing OnMessage, if it hasn't already.
 	code, reason := websocketError(err)
-	socket.WriteClose(code, []byte(reason))
+	socket.WriteClose(code, []byte(closeReason(reason)))
 
 	close(stream.done) // this allows OnMessage to instantly exit
 	wg.Wait()          // just a safety measure to avoid leaks
@@ -196,6 +198,27 @@ func websocketError(err error) (code uint16, reason string) {
 	}
 
 	return code, reason
+}
+
+// maxCloseReasonLen is how much of a reason fits into a close frame after the 2-byte status code,
+// since control frames are limited to 125 bytes of payload (RFC 6455, section 5.5).
+const maxCloseReasonLen = 123
+
+// closeReason makes a reason safe to send in a close frame: the reason must be valid UTF-8,
+// otherwise clients fail the connection instead of reporting the close code and reason,
+// so it is truncated on a rune boundary instead of letting the WebSocket library cut it mid-rune.
+func closeReason(reason string) string {
+	reason = strings.ToValidUTF8(reason, "\uFFFD")
+	if len(reason) <= maxCloseReasonLen {
+		return reason
+	}
+
+	n := maxCloseReasonLen
+	for n > 0 && !utf8.RuneStart(reason[n]) {
+		n--
+	}
+
+	return reason[:n]
 }
 
 type gwsReadEvent struct {
